@@ -117,7 +117,8 @@ def gen_plan(rnd, idx, pool, cycles):
         doms.append(d)
     order = list(range(3 * ndom))
     rnd.shuffle(order)
-    return dict(domains=doms, order=order, cycles=cycles)
+    # driver names need not be unique (a reusable block may build ClockDriver('gclk', ...) in its constructor): identity must count
+    return dict(domains=doms, order=order, cycles=cycles, same_names=(ndom >= 2 and rnd.random() < 0.4))
 
 
 def gen_stimulus(rnd, plan, cycles):
@@ -297,7 +298,7 @@ def build(plan):
             inst_block(b, hw, root, 'o', b['id'], None)
 
     for k in range(len(doms)):
-        drivers[k] = py4hw.ClockDriver('clk_d%d' % k, base=hw.clockDriver, enable=wires['en%d' % k], wire=W('clkw_d%d' % k, 1))
+        drivers[k] = py4hw.ClockDriver('gclk' if plan.get('same_names') else 'clk_d%d' % k, base=hw.clockDriver, enable=wires['en%d' % k], wire=W('clkw_d%d' % k, 1))
     items = []
     for k in range(len(doms)):
         items += [('dom', k), ('twins', k), ('ensrc', k)]
